@@ -117,6 +117,12 @@ Spec == Init /\ [][Next]_vars
 Refines == ok
 NoPanic == ~panic
 WindowRespected == \A x \in Ends : e[x].est => (e[x].swLevel >= 0 /\ e[x].swLevel <= e[x].W /\ e[x].rwLevel >= 0)
+\* no dead end between two well-behaved ends: with nothing travelling and both applications having picked up every complete
+\* message, an end that still has segments to send or acknowledgements to give can do so (at the latest when its timer fires)
+CanMove(x) == e[x].hsPending \/ (e[x].est /\ ~Full(e[x]) /\ (e[x].out > 0 \/ AckDue(e[x], TRUE)))
+NoDeadEnd == (/\ \A x \in Ends : e[x].est /\ chan[x] = <<>> /\ e[x].rwMsgs = 0
+              /\ \E x \in Ends : e[x].out > 0 \/ e[x].rwAckLevel > 0)
+             => \E x \in Ends : CanMove(x)
 SeqBound == \A x \in Ends : e[x].swLast <= MaxSeq
 EmitAtEnd == (nops = MaxOps \/ done) => PrintT(<<"REPLAY", ToJson(h)>>)
 =============================================================================
